@@ -1,6 +1,7 @@
 From Coq Require Import Extraction ExtrOcamlBasic ZArith List.
-From LP Require Import Num C20_Model.
+From LP Require Import Num C20_Model C20_Model2 Gen_C20_Units.
 Extraction Language OCaml.
 Extraction "C20_m.ml" round_m in_units in_units_list in_units_vector in_units_table in_units_matrix
   in_units_table_dims reduced_mass export_list export_table import_list import_table count_lines
-  roundtrip_list roundtrip_table roundtrip_function_list roundtrip_function_range io_step io_run Z.of_nat Z.to_nat.
+  roundtrip_list roundtrip_table roundtrip_function_list roundtrip_function_range io_step io_run
+  lit_me evalN fold_const startup_const defs Z.of_nat Z.to_nat.
